@@ -20,7 +20,7 @@ def gen_cases(ctx, n_grammars, n_inputs):
     cases = []
     for g in G.classic_corpus():
         cases.append((g, G.inputs_for(rng, g, n_inputs * 2)))
-    for src in G.gc_corpus()[:ctx.n(40, 120)]:
+    for src in G.gc_chain_corpus()[:ctx.n(20, 60)] + G.gc_corpus()[:ctx.n(40, 120)]:
         g = G.from_text(src)
         ctx.count("family_gc_corpus")
         cases.append((g, G.inputs_for(rng, g, n_inputs)))
